@@ -41,12 +41,20 @@ def replay_mode(ctx, tmp):
         sys.exit(2)
     inp = {"variants": VARIANTS, "blocks": [obj["block"]] if "block" in obj else [], "chains": [obj["chain"]] if "chain" in obj else []}
     fa = launch(ctx, binary, "TestVerifReplicaA", inp, "rA", tmp)
-    fb = fa and launch(ctx, binary, "TestVerifReplicaB", dict(inp, afile=fa), "rB", tmp)
-    if not fb:
+    if not fa:
         sys.exit(2)
-    A, B = vf.read_ndjson(fa), vf.read_ndjson(fb)
+    nphase = 1 + max([sum(1 for it in c if it.get("restart")) for c in inp["chains"]] or [0])
+    B = []
+    for ph in range(nphase):
+        fb = launch(ctx, binary, "TestVerifReplicaB", dict(inp, afile=fa, name="R", phase=ph, honor=True), "rB%d" % ph, tmp)
+        if not fb:
+            sys.exit(2)
+        B += [r for r in vf.read_ndjson(fb) if r["event"] != "Header"]
+    A = vf.read_ndjson(fa)
+    keyof = lambda r: (r["event"], r.get("i"), r.get("c"), r.get("b"))
+    Bm = {keyof(r): r for r in B}
     bad = False
-    for a, b in zip(A[1:], B[1:]):
+    for a, b in [(a, Bm.get(keyof(a), {})) for a in A[1:]]:
         same = a.get("digest") == b.get("digest") and not b.get("addErr") and a.get("err") == b.get("err")
         print("REPLAY %s A=%s B=%s %s" % ("same" if same else "DIFFERENT", json.dumps(a.get("digest"))[:500], json.dumps(b.get("digest"))[:500], b.get("addErr", "")))
         bad = bad or not same
@@ -61,6 +69,14 @@ def run(ctx):
         _run(ctx, tmp)
     finally:
         shutil.rmtree(tmp, ignore_errors=True)
+
+
+def expand(block):
+    """one descriptor per real transaction (setparam is two administrator transactions)"""
+    out = []
+    for t in block:
+        out += [dict(t, kind="setparam:set"), dict(t, kind="setparam:snapshot")] if t["kind"] == "setparam" else [t]
+    return out
 
 
 def shape_of(block):
@@ -93,7 +109,7 @@ def compare(ctx, what, block, a, bs, predicted_agree, replay_obj, stats):
     stats["diverge"] += 1
     na, nb = da["notify"], dbs[0]["notify"]
     keyed = False
-    for t, x, y in zip(block, na, nb):
+    for t, x, y in zip(expand(block), na, nb):
         if x != y:
             keyed = True
             ctx.violation("diverge:%s:%s" % (t["kind"], t["sv"]),
@@ -126,7 +142,8 @@ def _run(ctx, tmp):
             ctx.infra("probe is vacuous: %s" % probes)
         q = lambda xs: "{" + ", ".join('"%s"' % x for x in xs) + "}"
         files = {"ReplicaProbe.tla": "---- MODULE ReplicaProbe ----\n\\* generated by props/C02.py from harness/b_replica (TestVerifReplicaA probe)\n"
-                 "ProbedVariants == %s\nProbedSameAddr == %s\nQuickVariants == %s\n====\n" % (q(accepted), q(same), q(quick))}
+                 "ProbedVariants == %s\nProbedSameAddr == %s\nQuickVariants == %s\nChainVariants == %s\n====\n"
+                 % (q(accepted), q(same), q(quick), q(quick if ctx.thorough else quick[:1]))}
         # 2. design intent: with addresses derived like the validator does, the two nodes always agree
         ri = ctx.tlc("Replica_MC", cfg="Replica_C02i.cfg", files=files, tags=(), timeout=900)
         if ri.status != "ok":
@@ -142,17 +159,26 @@ def _run(ctx, tmp):
             agree1 = [e["act"]["agree"] for e in e1]
             paths, ncov = ctx.cover(r2.prints.get("EDGE", []), r2.prints.get("INIT", []), max_len=10)
             paths = [p for p in paths if p["steps"]]
-            chains = [[s["act"]["block"] for s in p["steps"]] for p in paths]
-            ctx.log("TLC: %d single blocks, %d chains (%d edges)" % (len(blocks), len(chains), len(r2.prints.get("EDGE", []))))
-            if not blocks or not chains:
+            chains = [[({"txs": s["act"]["block"]} if s["act"]["name"] == "Seal" else {"restart": True}) for s in p["steps"]] for p in paths]
+            nrest = sum(1 for c in chains for it in c if it.get("restart"))
+            nparam = sum(1 for c in chains for it in c for t in it.get("txs", []) if t["kind"] == "setparam")
+            ctx.log("TLC: %d single blocks, %d chains (%d edges, %d restarts of node B2, %d parameter changes)" % (len(blocks), len(chains), len(r2.prints.get("EDGE", [])), nrest, nparam))
+            if not blocks or not chains or not nrest or not nparam:
                 ctx.infra("vacuous enumeration")
             inp = {"variants": VARIANTS, "blocks": blocks, "chains": chains}
             fa = launch(ctx, binary, "TestVerifReplicaA", inp, "A", tmp)
             if fa:
-                outs = {}
+                outs = {"B1": [], "B2": []}
+                nphase = 1 + max(sum(1 for it in c if it.get("restart")) for c in chains)
 
                 def b_run(name):
-                    outs[name] = launch(ctx, binary, "TestVerifReplicaB", dict(inp, afile=fa), name, tmp)
+                    # B1 never restarts; B2 exits at every restart marker and a NEW PROCESS continues from its data directories
+                    for ph in range(nphase if name == "B2" else 1):
+                        f = launch(ctx, binary, "TestVerifReplicaB", dict(inp, afile=fa, name=name, phase=ph, honor=(name == "B2")), "%s-p%d" % (name, ph), tmp)
+                        if not f:
+                            outs[name] = None
+                            return
+                        outs[name] += vf.read_ndjson(f)
                 ths = [threading.Thread(target=b_run, args=(n,)) for n in ("B1", "B2")]
                 for t in ths:
                     t.start()
@@ -160,35 +186,40 @@ def _run(ctx, tmp):
                     t.join()
                 if all(outs.get(n) for n in ("B1", "B2")):
                     A = vf.read_ndjson(fa)
-                    Bs = [vf.read_ndjson(outs[n]) for n in ("B1", "B2")]
-                    if any("err" in b[0] for b in Bs):
-                        ctx.violation("diverge:bootstrap", {"B": [b[0] for b in Bs]}, {"bootstrap": True})
-                    elif not all(len(b) == len(A) for b in Bs):
-                        ctx.infra("replica outputs have different lengths: %s" % [len(A)] + [len(b) for b in Bs])
+                    keyof = lambda r: (r["event"], r.get("i"), r.get("c"), r.get("b"))
+                    Bs = [{keyof(r): r for r in outs[n] if r["event"] != "Header"} for n in ("B1", "B2")]
+                    heads = [r for n in ("B1", "B2") for r in outs[n] if r["event"] == "Header"]
+                    if any("err" in h for h in heads):
+                        ctx.violation("diverge:bootstrap", {"B": heads}, {"bootstrap": True})
+                    elif not all(all(keyof(a) in b for a in A[1:]) for b in Bs):
+                        ctx.infra("a replica did not report every block: %s" % [len(A) - 1] + [len(b) for b in Bs])
                     else:
                         for k in range(1, len(A)):
-                            a, bs = A[k], [b[k] for b in Bs]
+                            a, bs = A[k], [b[keyof(A[k])] for b in Bs]
                             if a["event"] == "Block":
                                 blk = blocks[a["i"]]
                                 compare(ctx, "single block on the bootstrapped state", blk, a, bs, agree1[a["i"]], {"block": blk}, stats)
                                 nblocks += 1
                             else:
                                 ch = chains[a["c"]]
-                                if a["b"] < len(ch):
-                                    st = paths[a["c"]]["steps"][a["b"]]["act"]
-                                    compare(ctx, "chain", ch[a["b"]], a, bs, st["agree"], {"chain": ch[:a["b"] + 1]}, stats)
+                                st = paths[a["c"]]["steps"][a["b"]]["act"]
+                                what = "chain (B2 restarted %d times before this block)" % sum(1 for it in ch[:a["b"]] if it.get("restart"))
+                                compare(ctx, what, ch[a["b"]]["txs"], a, bs, st["agree"], {"chain": ch[:a["b"] + 1]}, stats)
                                 if a["b"] == 0:
                                     nchains += 1
                         ctx.log("replicas compared: %s" % stats)
                         if stats["executed"] < 0.8 * (len(blocks)) or stats["agree"] == 0:
                             ctx.infra("vacuous comparison: %s" % stats)
                         ctx.samples.append({"block": blocks[min(20, len(blocks) - 1)], "A": {k: A[min(21, len(A) - 1)].get(k) for k in ("digest", "verdicts")}})
-                        ctx.samples.append({"chain": chains[0]})
+                        ctx.samples.append({"chain": max(chains, key=len)})
     cov = {"states": ctx.stats["states"], "transitions": ctx.stats["transitions"],
            "traces_validated_against_impl": nblocks + nchains, "blocks_compared": stats, "processes": 3, "exhaustive": True}
     cov.update(ctx.extra)
     ctx.finish("model_checking", cov, [
-        "node A validates every transaction (VerifyTransaction) before sealing; nodes B1, B2 (two separate processes) only decode Block.ToArray() bytes",
+        "node A validates every transaction (VerifyTransaction) before sealing; nodes B1, B2 (separate processes) only decode Block.ToArray() bytes; "
+        "B2 additionally exits at the restart points chosen by TLC and a fresh process continues from its data directories",
+        "chains contain governance parameter changes (global_params setGlobalParam + createSnapshot raising the native-call gas price) followed by "
+        "fee-paying transfers",
         "compared: ExecuteResult.Hash, MerkleRoot, the whole write set, per-transaction notify (state, gas, events, created contract), committed state root",
         "single blocks are executed (not committed) on the common bootstrapped state; chains are committed block after block",
         "transaction kinds: native ONT transfer with a fee, NeoVM script requiring CheckWitness(payer), fee-less NeoVM deployment, EIP-155 transfer; "
